@@ -43,6 +43,7 @@ def work(item):
         U = H.Universe()
         bits = H.symbolic_bits()
         net, m = H.build_pre(U, bits)
+        H.touch(net, 0x7FF)  # everything has been looked at before the call
         real(net, U)
         model_fn(m)
         return bits, H.graph_matches_model(net, U, m)
